@@ -379,6 +379,15 @@ func oracleC03() *Result {
 	for _, s := range heredocLookalikes() {
 		tasks = append(tasks, Task{Oracle: "C03v", Cfg: "valid", Src: s, Tag: "heredoc-lookalike"})
 	}
+	{
+		st, ca := heredocTrailers()
+		for _, s := range st {
+			tasks = append(tasks, Task{Oracle: "C03v", Cfg: "valid", Src: s, Tag: "heredoc-trailer"})
+		}
+		for _, s := range ca {
+			tasks = append(tasks, Task{Oracle: "C03v", Cfg: "73heredoc", Src: s, Tag: "heredoc-trailer"})
+		}
+	}
 	for _, s := range validStmts {
 		tasks = append(tasks, Task{Oracle: "C03v", Cfg: "valid", Src: []byte("<?php " + s), Tag: "valid"})
 		tasks = append(tasks, Task{Oracle: "C03v", Cfg: "valid", Src: []byte("<?php\r" + strings.ReplaceAll(s, " ", "\r")), Tag: "valid-lone-CR"})
